@@ -535,7 +535,7 @@ def _native_method(recv, name):
                 r = hook('str_join', I, recv, items)
                 if r is not None:
                     return r
-                raise Unsupported('join of non-str items')
+                return E.Opaque('str.join')  # text of unknown content (documentation strings, messages)
             if name == 'format':
                 if any(is_sym(a) or isinstance(a, (E.Obj, E.Opaque)) or hasattr(a, 'is_sarr') for a in list(args) + list(kw.values())):
                     return E.Opaque('str.format')
